@@ -21,8 +21,8 @@
     Abstractions (inputs of the model, decided elsewhere):
       [b_crc_ok]  result of [check_all_crc] (C08);   [b_sec]  outcome of the BPSec verification steps when
       the bundle is to be delivered (C12): [Some reason] = failure;   [b_prep]  whether the block
-      insertions of [_do_fwd] raise (C11; block numbers handed out once stick to the class-level
-      [overloaded_fields] dict);
+      insertions of [_do_fwd] raise (C11's container model; with the current code they cannot - inserted
+      blocks get fresh numbers - and the harness always passes 0);
       [b_size] encoded size offered to the fragment step and [b_fragfeas] whether every fragment fits the
       route MTU (C05's budget);  [t_rpt] how a status report fares against the route MTU (0 sent whole,
       1 infeasible, 2 fragmented);
